@@ -117,12 +117,20 @@ theorem writerExpires_range (fdt : FdtAbs) (e : Int) (h : fdt.writerExpires = so
 theorem applyWEv_exp (ans : FdtAns) (f : FdtRecv σ) (e : WEv)
     (h : ∀ x, f.expires = some x → 0 ≤ x ∧ x < 4294967296000000) :
     ∀ x, (f.applyWEv ans e).expires = some x → 0 ≤ x ∧ x < 4294967296000000 := by
-  cases e <;> try exact h
-  · cases ans with
-    | err => exact h
-    | ok fdt u =>
-      intro x hx
-      exact writerExpires_range fdt x hx
+  cases e with
+  | complete =>
+    simp only [FdtRecv.applyWEv]
+    split
+    · exact h
+    · cases ans with
+      | err => exact h
+      | ok fdt u =>
+        intro x hx
+        exact writerExpires_range fdt x hx
+  | write sbn len =>
+    simp only [FdtRecv.applyWEv]
+    split <;> exact h
+  | _ => exact h
 
 theorem applyWEvs_exp (ans : FdtAns) (f : FdtRecv σ) (evs : List WEv)
     (h : ∀ x, f.expires = some x → 0 ≤ x ∧ x < 4294967296000000) :
@@ -147,7 +155,11 @@ theorem applyWEvs_complete (ans : FdtAns) (f : FdtRecv σ) (evs : List WEv)
       | interrupted => simp [FdtRecv.applyWEv] at h1
       | new cc => exact Or.inl h1
       | opened => exact Or.inl h1
-      | write a b => exact Or.inl h1
+      | write a b =>
+        simp only [FdtRecv.applyWEv] at h1
+        split at h1
+        · cases h1
+        · exact Or.inl h1
     · exact Or.inr (List.mem_cons_of_mem _ h1)
 
 theorem observeSct_good (f : FdtRecv σ) (sct : Option Int) (now : Int) (hg : Good f)
